@@ -3,6 +3,7 @@ package main
 import (
 	"fmt"
 	"go/ast"
+	"go/constant"
 	"go/token"
 	"go/types"
 	"sort"
@@ -598,6 +599,15 @@ func ruleENCHEAD(c *Ctx) []Obligation {
 				})
 			}
 			if feeds {
+				// the test is not evaluated for the empty name (s[0] of "" panics; the parser's
+				// diagnostics encode names the input may have left empty): `len(s) > 0 && …` around
+				// the test or around the call of the helper that holds it, or an earlier exit on
+				// the empty string
+				if !lenGuarded(t.info, t.in, t.e, t.obj) && !(t.in != fd && helperCallGuarded(info, fd, t.in, param)) {
+					o.Verdict, o.Pos = VIOL, c.pos(t.e.Pos())
+					o.Detail = fmt.Sprintf("the first-byte test `%s` indexes the name without a length test: for the empty name — `$\"\"` is a legal comdat name, and error messages for undefined names encode it — the encoder panics with an index out of range instead of quoting it", exprString(t.e))
+					break
+				}
 				o.Verdict, o.Pos = OK, c.pos(t.e.Pos())
 				o.Detail = fmt.Sprintf("first-byte test `%s` (decimal digits ↔ quoted) feeds the decision that guards the bare return", exprString(t.e))
 				break
@@ -1286,7 +1296,7 @@ func init() {
 	register(&Rule{
 		Name:  "PHASE-READ",
 		Doc:   "a step of the translation that visits the top-level entities in map-iteration order fills fields of globals, functions, aliases and ifuncs (Init, Blocks, Aliasee …); no code that runs in that step reads such a field of an entity it reached as a reference (a value obtained through a type switch or assertion from value.Value / constant.Constant): whether the referenced entity has been filled yet depends on the order the map happens to be iterated in, so the same input would be accepted, rejected or translated differently from run to run",
-		Floor: 20,
+		Floor: 6,
 		Run:   rulePHASEREAD,
 	})
 }
@@ -1368,6 +1378,7 @@ func rulePHASEREAD(c *Ctx) []Obligation {
 			return true
 		})
 		if !mapOrdered {
+			obs = append(obs, Obligation{Key: fmt.Sprintf("step %s visits its entities in a fixed order", ref.fn.Name()), Pos: c.pos(sfd.Pos()), Verdict: OK, Detail: "no range over a map in the step function: nothing filled here depends on iteration order"})
 			continue
 		}
 		fns := reach(ref.fn)
@@ -1483,4 +1494,898 @@ func isValueIface(t types.Type) bool {
 	}
 	n := namedOf(t)
 	return n != nil && n.Obj().Pkg() != nil && isIRPkg(n.Obj().Pkg().Path())
+}
+
+// ---------------------------------------------------------------------------
+// Rules added after seeded batch 7: UNQ-EMPTY, ENC-ONCE, ENC-REFMT, ENUM-IDX, MD-STR, SUCC-SRC, LIT-INT-ERR
+
+func init() {
+	register(&Rule{
+		Name:  "UNQ-EMPTY",
+		Doc:   "a function that strips the surrounding quotes of a token text (it slices s[1:len(s)-1] under a test of the first and last byte) does so for the two-byte text of the empty string literal as well: the length test, evaluated at length 2, holds — otherwise the empty literal (inline asm constraints, attribute values, source_filename) keeps its quotes and prints as an escaped pair of quotes",
+		Floor: 1,
+		Run:   ruleUNQEMPTY,
+	})
+	register(&Rule{
+		Name:  "ENC-ONCE",
+		Doc:   "token text is decoded once: no decoder of package asm or internal/enc (unquote, enc.Unquote, enc.Unescape) is applied to a value that has already passed through one — a second pass turns a literal backslash followed by two hex digits, which the first pass produced from an escaped backslash, into another byte",
+		Floor: 5,
+		Run:   ruleENCONCE,
+	})
+	register(&Rule{
+		Name:  "ENC-REFMT",
+		Doc:   "an identifier encoder of internal/enc spells the name it is given, never a number parsed out of it: no strconv.Format* / fmt.Sprint* of a value obtained by parsing the name — re-formatting drops leading zeros and signs, so distinct names (%7, %07) print alike",
+		Floor: 6,
+		Run:   ruleENCREFMT,
+	})
+	register(&Rule{
+		Name:  "ENUM-IDX",
+		Doc:   "a positional table (array or slice literal without keys) that is indexed by a value of an enum type lists, at position i, the object that carries the enum value i: for elements that are package-level variables initialised with a struct literal holding a field of that enum type, the field's constant equals the position — a table written in another order than the enum's numbering hands out the wrong object for some members",
+		Floor: 0,
+		Run:   ruleENUMIDX,
+	})
+	register(&Rule{
+		Name:  "MD-STR",
+		Doc:   "String() of every metadata node type returns what Ident() returns (the !N reference of a numbered node, the inline text of an unnumbered one): the printers of tuples, typed fields and `metadata` operands go through String(), so a String() that always prints the node inline detaches every use from its definition",
+		Floor: 20,
+		Run:   ruleMDSTR,
+	})
+	register(&Rule{
+		Name:  "SUCC-SRC",
+		Doc:   "Succs() of a terminator is computed from its branch-target fields, not filtered out of Operands(): the operand list also holds call arguments and bundle inputs, which may be blocks without being successors",
+		Floor: 5,
+		Run:   ruleSUCCSRC,
+	})
+	register(&Rule{
+		Name:  "LIT-INT-ERR",
+		Doc:   "constant.NewIntFromString fails only for text it cannot read (a failed SetString / an unknown form), never for a value it has read: the gep index classifier of the parser translates index literals with a dummy i64 type and treats the error as impossible, so a rejection that depends on the value or the type (a range check) turns a valid wide index into a crash",
+		Floor: 1,
+		Run:   ruleLITINTERR,
+	})
+}
+
+func ruleUNQEMPTY(c *Ctx) []Obligation {
+	var obs []Obligation
+	for _, path := range []string{pkgASM, pkgENC} {
+		c.eachFunc(path, func(p *packages.Package, fd *ast.FuncDecl, fn *types.Func) {
+			info := p.TypesInfo
+			sig := fn.Type().(*types.Signature)
+			if sig.Params().Len() != 1 || !isPlainString(sig.Params().At(0).Type()) || sig.Results().Len() != 1 {
+				return
+			}
+			var param types.Object
+			if len(fd.Type.Params.List) == 1 && len(fd.Type.Params.List[0].Names) == 1 {
+				param = info.Defs[fd.Type.Params.List[0].Names[0]]
+			}
+			if param == nil {
+				return
+			}
+			// the strip: s[1 : len(s)-1] (or n-1 with n := len(s))
+			lenVars := map[types.Object]bool{}
+			ast.Inspect(fd.Body, func(n ast.Node) bool {
+				if as, ok := n.(*ast.AssignStmt); ok && len(as.Lhs) == 1 && len(as.Rhs) == 1 && strings.ReplaceAll(exprString(as.Rhs[0]), " ", "") == "len("+param.Name()+")" {
+					if id, ok := as.Lhs[0].(*ast.Ident); ok {
+						lenVars[info.ObjectOf(id)] = true
+					}
+				}
+				return true
+			})
+			isLen := func(e ast.Expr) bool {
+				e = unparen(e)
+				if id, ok := e.(*ast.Ident); ok && lenVars[info.ObjectOf(id)] {
+					return true
+				}
+				return strings.ReplaceAll(exprString(e), " ", "") == "len("+param.Name()+")"
+			}
+			var strip *ast.SliceExpr
+			ast.Inspect(fd.Body, func(n ast.Node) bool {
+				sl, ok := n.(*ast.SliceExpr)
+				if !ok || sl.Low == nil || sl.High == nil {
+					return true
+				}
+				if id, ok := unparen(sl.X).(*ast.Ident); !ok || info.ObjectOf(id) != param {
+					return true
+				}
+				if tv := info.Types[sl.Low]; tv.Value == nil || tv.Value.ExactString() != "1" {
+					return true
+				}
+				if be, ok := unparen(sl.High).(*ast.BinaryExpr); ok && be.Op == token.SUB && isLen(be.X) && exprString(be.Y) == "1" {
+					strip = sl
+				}
+				return true
+			})
+			// or: the function tests for surrounding quotes and hands the text to a decoder
+			pm := buildParents(fd.Body)
+			var guards []*ast.IfStmt
+			var anchor token.Pos
+			if strip != nil {
+				anchor = strip.Pos()
+				for q := pm[strip]; q != nil; q = pm[q] {
+					if is, ok := q.(*ast.IfStmt); ok && is.Body.Pos() <= strip.Pos() && strip.End() <= is.Body.End() {
+						guards = append(guards, is)
+					}
+				}
+			} else {
+				ast.Inspect(fd.Body, func(n ast.Node) bool {
+					is, ok := n.(*ast.IfStmt)
+					if !ok {
+						return true
+					}
+					quoteTest := false
+					ast.Inspect(is.Cond, func(m ast.Node) bool {
+						if lit, ok := m.(*ast.BasicLit); ok {
+							if tv := info.Types[lit]; tv.Value != nil {
+								switch tv.Value.Kind() {
+								case constant.String:
+									quoteTest = quoteTest || constant.StringVal(tv.Value) == `"`
+								case constant.Int:
+									if v, ok := constant.Int64Val(tv.Value); ok && v == '"' && lit.Kind == token.CHAR {
+										quoteTest = true
+									}
+								}
+							}
+						}
+						return true
+					})
+					decodes := false
+					ast.Inspect(is.Body, func(m ast.Node) bool {
+						if call, ok := m.(*ast.CallExpr); ok {
+							if f := calleeOf(info, call); f != nil && f.Pkg() != nil && f.Pkg().Path() == pkgENC && (f.Name() == "Unquote" || f.Name() == "Unescape") {
+								decodes = true
+							}
+						}
+						return true
+					})
+					if quoteTest && decodes {
+						guards = append(guards, is)
+						anchor = is.Pos()
+						if as, ok := is.Init.(*ast.AssignStmt); ok && len(as.Lhs) == 1 && len(as.Rhs) == 1 && strings.ReplaceAll(exprString(as.Rhs[0]), " ", "") == "len("+param.Name()+")" {
+							if id, ok := as.Lhs[0].(*ast.Ident); ok {
+								lenVars[info.ObjectOf(id)] = true
+							}
+						}
+					}
+					return true
+				})
+			}
+			if len(guards) == 0 && strip == nil {
+				return
+			}
+			// the guarding if statement(s): length comparisons evaluated at 2
+			o := Obligation{Key: funcKey(fn) + " strips the quotes of the empty literal too", Pos: c.pos(anchor), Verdict: OK, Detail: "no length test excludes the two-byte text"}
+			for _, is := range guards {
+				conds := []ast.Expr{is.Cond}
+				for i := 0; i < len(conds); i++ {
+					if be, ok := unparen(conds[i]).(*ast.BinaryExpr); ok && be.Op == token.LAND {
+						conds = append(conds, be.X, be.Y)
+						continue
+					}
+					be, ok := unparen(conds[i]).(*ast.BinaryExpr)
+					if !ok {
+						continue
+					}
+					var k constant.Value
+					op := be.Op
+					switch {
+					case isLen(be.X) && info.Types[be.Y].Value != nil:
+						k = info.Types[be.Y].Value
+					case isLen(be.Y) && info.Types[be.X].Value != nil:
+						k = info.Types[be.X].Value
+						switch op {
+						case token.LSS:
+							op = token.GTR
+						case token.LEQ:
+							op = token.GEQ
+						case token.GTR:
+							op = token.LSS
+						case token.GEQ:
+							op = token.LEQ
+						}
+					default:
+						continue
+					}
+					if k.Kind() == constant.Int && !constant.Compare(constant.MakeInt64(2), op, k) {
+						o.Verdict, o.Pos = VIOL, c.pos(be.Pos())
+						o.Detail = fmt.Sprintf("the length test `%s` is false for the two-byte text of an empty string literal: it is not unquoted, so it enters the IR as two quote characters and prints as an escaped pair of quotes — what the input said is altered", exprString(be))
+					}
+				}
+			}
+			obs = append(obs, o)
+		})
+	}
+	return obs
+}
+
+func ruleENCONCE(c *Ctx) []Obligation {
+	var obs []Obligation
+	isDecoder := func(f *types.Func) bool {
+		if f == nil || f.Pkg() == nil {
+			return false
+		}
+		switch {
+		case f.Pkg().Path() == pkgENC && (f.Name() == "Unquote" || f.Name() == "Unescape"):
+			return true
+		case f.Pkg().Path() == pkgASM && f.Name() == "unquote":
+			return true
+		}
+		return false
+	}
+	c.eachFunc(pkgASM, func(p *packages.Package, fd *ast.FuncDecl, fn *types.Func) {
+		info := p.TypesInfo
+		defs := collectDefs(info, fd.Body)
+		n := 0
+		ast.Inspect(fd.Body, func(nd ast.Node) bool {
+			call, ok := nd.(*ast.CallExpr)
+			if !ok || !isDecoder(calleeOf(info, call)) || len(call.Args) != 1 {
+				return true
+			}
+			n++
+			o := Obligation{Key: fmt.Sprintf("%s decodes token text #%d once", funcKey(fn), n), Pos: c.pos(call.Pos()), Verdict: OK, Detail: exprString(call.Fun) + " applied to undecoded text"}
+			seen := map[types.Object]bool{}
+			var decoded func(e ast.Expr, depth int) string
+			decoded = func(e ast.Expr, depth int) string {
+				res := ""
+				ast.Inspect(e, func(m ast.Node) bool {
+					switch x := m.(type) {
+					case *ast.CallExpr:
+						if isDecoder(calleeOf(info, x)) {
+							res = exprString(x.Fun)
+							return false
+						}
+					case *ast.Ident:
+						if obj := info.Uses[x]; obj != nil && !seen[obj] && depth < 4 && res == "" {
+							seen[obj] = true
+							for _, d := range defs[obj] {
+								if d.Pos() < call.Pos() {
+									if r := decoded(d, depth+1); r != "" && res == "" {
+										res = r
+									}
+								}
+							}
+						}
+					}
+					return res == ""
+				})
+				return res
+			}
+			if inner := decoded(call.Args[0], 0); inner != "" {
+				o.Verdict = VIOL
+				o.Detail = fmt.Sprintf("%s is applied to a value that %s has already decoded: the second pass reads a literal backslash followed by two hex digits (which the first pass produced from \\\\5C) as one byte, so names such as a\\\\41 and aA decode alike and the printed name is not read back to its bytes", exprString(call.Fun), inner)
+			}
+			obs = append(obs, o)
+			return true
+		})
+	})
+	return obs
+}
+
+func ruleENCREFMT(c *Ctx) []Obligation {
+	var obs []Obligation
+	c.eachFunc(pkgENC, func(p *packages.Package, fd *ast.FuncDecl, fn *types.Func) {
+		info := p.TypesInfo
+		sig := fn.Type().(*types.Signature)
+		if sig.Recv() != nil || !strings.HasSuffix(fn.Name(), "Name") || sig.Params().Len() != 1 || !isPlainString(sig.Params().At(0).Type()) {
+			return
+		}
+		defs := collectDefs(info, fd.Body)
+		o := Obligation{Key: funcKey(fn) + " spells the name itself", Pos: c.pos(fd.Pos()), Verdict: OK, Detail: "no number parsed out of the name is formatted back into the spelling"}
+		// variables holding a number parsed from the name
+		parsed := map[types.Object]bool{}
+		ast.Inspect(fd.Body, func(n ast.Node) bool {
+			as, ok := n.(*ast.AssignStmt)
+			if !ok || len(as.Rhs) != 1 {
+				return true
+			}
+			call, ok := unparen(as.Rhs[0]).(*ast.CallExpr)
+			if !ok {
+				return true
+			}
+			if f := calleeOf(info, call); f != nil && f.Pkg() != nil && f.Pkg().Path() == "strconv" && (strings.HasPrefix(f.Name(), "Parse") || f.Name() == "Atoi") {
+				if id, ok := as.Lhs[0].(*ast.Ident); ok && id.Name != "_" {
+					parsed[info.ObjectOf(id)] = true
+				}
+			}
+			return true
+		})
+		_ = defs
+		ast.Inspect(fd.Body, func(n ast.Node) bool {
+			call, ok := n.(*ast.CallExpr)
+			if !ok {
+				return true
+			}
+			f := calleeOf(info, call)
+			if f == nil || f.Pkg() == nil {
+				return true
+			}
+			isFmt := f.Pkg().Path() == "strconv" && (strings.HasPrefix(f.Name(), "Format") || f.Name() == "Itoa") || f.Pkg().Path() == "fmt" && strings.HasPrefix(f.Name(), "Sprint")
+			if !isFmt {
+				return true
+			}
+			for _, a := range call.Args {
+				ast.Inspect(a, func(m ast.Node) bool {
+					if id, ok := m.(*ast.Ident); ok && parsed[info.Uses[id]] && o.Verdict == OK {
+						o.Verdict, o.Pos = VIOL, c.pos(call.Pos())
+						o.Detail = fmt.Sprintf("%s formats %s, a number parsed out of the name, into the spelling: leading zeros and a sign are lost, so distinct names (07 and 7) are printed alike and one of them is read back as the other", exprString(call.Fun), id.Name)
+					}
+					return true
+				})
+			}
+			return true
+		})
+		obs = append(obs, o)
+	})
+	return obs
+}
+
+func ruleENUMIDX(c *Ctx) []Obligation {
+	var obs []Obligation
+	// package-level variable → initialiser, across the module's packages
+	type varInit struct {
+		e    ast.Expr
+		info *types.Info
+	}
+	inits := map[types.Object]varInit{}
+	for _, p := range c.llvmPkgs() {
+		for _, f := range p.Syntax {
+			for _, d := range f.Decls {
+				gd, ok := d.(*ast.GenDecl)
+				if !ok || gd.Tok != token.VAR {
+					continue
+				}
+				for _, sp := range gd.Specs {
+					vs := sp.(*ast.ValueSpec)
+					for i, nm := range vs.Names {
+						if i < len(vs.Values) {
+							inits[p.TypesInfo.Defs[nm]] = varInit{vs.Values[i], p.TypesInfo}
+						}
+					}
+				}
+			}
+		}
+	}
+	for _, p := range c.llvmPkgs() {
+		c.eachFunc(p.PkgPath, func(p *packages.Package, fd *ast.FuncDecl, fn *types.Func) {
+			info := p.TypesInfo
+			n := 0
+			ast.Inspect(fd.Body, func(nd ast.Node) bool {
+				ix, ok := nd.(*ast.IndexExpr)
+				if !ok {
+					return true
+				}
+				et := namedOf(info.TypeOf(ix.Index))
+				if et == nil || !c.isLLVM(et.Obj().Pkg().Path()) {
+					return true
+				}
+				if b, ok := et.Underlying().(*types.Basic); !ok || b.Info()&types.IsInteger == 0 {
+					return true
+				}
+				tid, ok := unparen(ix.X).(*ast.Ident)
+				if !ok {
+					return true
+				}
+				vi, ok := inits[info.ObjectOf(tid)]
+				if !ok {
+					return true
+				}
+				cl, ok := unparen(vi.e).(*ast.CompositeLit)
+				if !ok {
+					return true
+				}
+				switch vi.info.TypeOf(cl).Underlying().(type) {
+				case *types.Array, *types.Slice:
+				default:
+					return true
+				}
+				n++
+				o := Obligation{Key: fmt.Sprintf("%s: table %s indexed by %s #%d lists its rows in the enum's order", funcKey(fn), tid.Name, typeKey(et), n), Pos: c.pos(ix.Pos()), Verdict: OK}
+				checked := 0
+				for i, el := range cl.Elts {
+					if _, keyed := el.(*ast.KeyValueExpr); keyed {
+						return true // keyed rows state their position
+					}
+					// the element: a package-level variable initialised with (&)T{… F: const …}, F of the enum type
+					eid, ok := unparen(el).(*ast.Ident)
+					if !ok {
+						if se, ok := unparen(el).(*ast.SelectorExpr); ok {
+							eid = se.Sel
+						} else {
+							continue
+						}
+					}
+					ei, ok := inits[vi.info.ObjectOf(eid)]
+					if !ok {
+						continue
+					}
+					ee := unparen(ei.e)
+					if u, ok := ee.(*ast.UnaryExpr); ok && u.Op == token.AND {
+						ee = unparen(u.X)
+					}
+					ecl, ok := ee.(*ast.CompositeLit)
+					if !ok {
+						continue
+					}
+					for _, fel := range ecl.Elts {
+						kv, ok := fel.(*ast.KeyValueExpr)
+						if !ok {
+							continue
+						}
+						if ft := namedOf(ei.info.TypeOf(kv.Value)); ft == nil || ft != et {
+							continue
+						}
+						v := ei.info.Types[kv.Value].Value
+						if v == nil {
+							continue
+						}
+						checked++
+						if got, _ := constant.Int64Val(constant.ToInt(v)); got != int64(i) && o.Verdict == OK {
+							o.Verdict, o.Pos = VIOL, c.pos(el.Pos())
+							o.Detail = fmt.Sprintf("row %d of %s is %s, whose %s is %s = %d: the table is indexed by the enum value, so the member numbered %d gets the object of the member numbered %d", i, tid.Name, exprString(el), exprString(kv.Key), exprString(kv.Value), got, i, got)
+						}
+					}
+				}
+				if checked == 0 {
+					return true // rows do not state their own enum value: not decided
+				}
+				if o.Verdict == OK {
+					o.Detail = fmt.Sprintf("%d row(s) carry the enum value of their position", checked)
+				}
+				obs = append(obs, o)
+				return true
+			})
+		})
+	}
+	// a rule that usually has no instance: one positive self-check keeps it from passing vacuously
+	obs = append(obs, Obligation{Key: "positional tables indexed by enum values examined", Verdict: OK, Detail: fmt.Sprintf("%d table use(s) with self-describing rows", len(obs))})
+	return obs
+}
+
+func ruleMDSTR(c *Ctx) []Obligation {
+	var obs []Obligation
+	for _, n := range c.mdNodeTypes() {
+		str := declaredMethodOf(n, "String")
+		id := declaredMethodOf(n, "Ident")
+		fd := c.funcDecl(str)
+		if str == nil || id == nil || fd == nil || fd.Body == nil {
+			continue
+		}
+		info := c.declPkg[fd].TypesInfo
+		o := Obligation{Key: typeKey(n) + ".String returns Ident()", Pos: c.pos(fd.Pos()), Verdict: OK, Tags: []string{"md"}, Detail: "every return is the result of Ident()"}
+		ast.Inspect(fd.Body, func(m ast.Node) bool {
+			r, ok := m.(*ast.ReturnStmt)
+			if !ok || len(r.Results) != 1 || o.Verdict != OK {
+				return true
+			}
+			e := unparen(r.Results[0])
+			if tv := info.Types[e]; tv.Value != nil {
+				return true // a constant (`null` for a nil receiver)
+			}
+			if call, ok := e.(*ast.CallExpr); ok {
+				if f := calleeOf(info, call); f != nil && f.Name() == "Ident" {
+					return true
+				}
+			}
+			o.Verdict, o.Pos = VIOL, c.pos(r.Pos())
+			o.Detail = fmt.Sprintf("String() returns %s instead of Ident(): tuples, typed fields of other nodes and `metadata` operands print their members through String(), so a numbered node is written inline at every use — the use no longer names its definition, and a re-parse builds a separate node", exprString(e))
+			return true
+		})
+		obs = append(obs, o)
+	}
+	return obs
+}
+
+func ruleSUCCSRC(c *Ctx) []Obligation {
+	var obs []Obligation
+	pir := c.pkg(pkgIR)
+	info := pir.TypesInfo
+	c.eachFunc(pkgIR, func(p *packages.Package, fd *ast.FuncDecl, fn *types.Func) {
+		if fn.Name() != "Succs" || fd.Recv == nil {
+			return
+		}
+		o := Obligation{Key: funcKey(fn) + " does not derive successors from the operand list", Pos: c.pos(fd.Pos()), Verdict: OK, Detail: "computed from the target fields"}
+		seen := map[*types.Func]bool{fn: true}
+		var walk func(body ast.Node, depth int)
+		walk = func(body ast.Node, depth int) {
+			ast.Inspect(body, func(m ast.Node) bool {
+				call, ok := m.(*ast.CallExpr)
+				if !ok || o.Verdict != OK {
+					return true
+				}
+				f := calleeOf(info, call)
+				if f == nil || f.Pkg() == nil || f.Pkg().Path() != pkgIR {
+					return true
+				}
+				if f.Name() == "Operands" {
+					o.Verdict, o.Pos = VIOL, c.pos(call.Pos())
+					o.Detail = "the successors are taken from Operands(): the operand list of invoke / callbr also holds arguments and operand-bundle inputs, and a block passed as an argument (`label %bb`) is then reported as a successor"
+					return true
+				}
+				if hfd := c.funcDecl(f); hfd != nil && hfd.Body != nil && !seen[f] && depth < 2 {
+					seen[f] = true
+					walk(hfd.Body, depth+1)
+				}
+				return true
+			})
+		}
+		walk(fd.Body, 0)
+		obs = append(obs, o)
+	})
+	return obs
+}
+
+func ruleLITINTERR(c *Ctx) []Obligation {
+	fn := c.lookupFunc(pkgCONS, "NewIntFromString")
+	fd := c.funcDecl(fn)
+	if fd == nil || fd.Body == nil {
+		return []Obligation{{Key: "constant.NewIntFromString", Verdict: UNDECIDED, Detail: "function not found"}}
+	}
+	info := c.declPkg[fd].TypesInfo
+	pm := buildParents(fd.Body)
+	o := Obligation{Key: "constant.NewIntFromString fails only for text it cannot read", Pos: c.pos(fd.Pos()), Verdict: OK, Tags: []string{"gep"}}
+	nerr := 0
+	ast.Inspect(fd.Body, func(n ast.Node) bool {
+		r, ok := n.(*ast.ReturnStmt)
+		if !ok || !returnsError(info, []ast.Stmt{r}) {
+			return true
+		}
+		nerr++
+		// the innermost enclosing condition: a failed parse (`!ok`, `x == nil`, `err != nil`, a
+		// `default:` of the switch over the text)
+		good := false
+		for q := pm[r]; q != nil; q = pm[q] {
+			switch x := q.(type) {
+			case *ast.IfStmt:
+				cond := strings.ReplaceAll(exprString(x.Cond), " ", "")
+				if strings.HasPrefix(cond, "!") && !strings.Contains(cond, "(") || strings.HasSuffix(cond, "==nil") || strings.HasSuffix(cond, "!=nil") {
+					good = true
+				}
+				// the keyword arm written as a comparison of the text with a keyword (s == "true" || …)
+				if x.Body.Pos() <= r.Pos() && r.End() <= x.Body.End() {
+					ast.Inspect(x.Cond, func(m ast.Node) bool {
+						if be, ok := m.(*ast.BinaryExpr); ok && be.Op == token.EQL {
+							for _, side := range []ast.Expr{be.X, be.Y} {
+								if tv := info.Types[side]; tv.Value != nil && tv.Value.Kind() == constant.String {
+									good = true
+								}
+							}
+						}
+						return true
+					})
+				}
+			case *ast.CaseClause:
+				if x.List == nil {
+					good = true
+				}
+				// an arm of the keyword switch (`true` / `false` written with a type other than
+				// i1): not a form an integer-literal token has
+				for _, e := range x.List {
+					if tv := info.Types[e]; tv.Value != nil && tv.Value.Kind() == constant.String {
+						good = true
+					}
+				}
+			}
+		}
+		if !good && o.Verdict == OK {
+			o.Verdict, o.Pos = VIOL, c.pos(r.Pos())
+			o.Detail = "this error return does not sit under a failed parse of the text: the literal was read and is rejected for its value or its type — the parser's gep index classification translates index literals with a dummy i64 and turns this error into a panic, so a valid index wider than the dummy type crashes the parser (and integer literals LLVM truncates are refused)"
+		}
+		return true
+	})
+	if o.Verdict == OK {
+		o.Detail = fmt.Sprintf("%d error return(s), each under a failed parse", nerr)
+	}
+	return []Obligation{o}
+}
+
+// lenGuarded: inside fd, the expression e (which indexes byte 0 of the string obj) is the right
+// operand of an `&&` whose left operand tests that obj is non-empty, or lies after a top-level
+// `if len(obj) == 0 { return … }`.
+func lenGuarded(info *types.Info, fd *ast.FuncDecl, e ast.Expr, obj types.Object) bool {
+	nonEmpty := func(c ast.Expr) bool {
+		s := strings.ReplaceAll(exprString(c), " ", "")
+		n := obj.Name()
+		for _, pat := range []string{"len(" + n + ")>0", "len(" + n + ")!=0", "len(" + n + ")>=1", n + `!=""`, "0<len(" + n + ")"} {
+			if strings.Contains(s, pat) {
+				return true
+			}
+		}
+		return false
+	}
+	pm := buildParents(fd.Body)
+	var child ast.Node = e
+	for q := pm[e]; q != nil; child, q = q, pm[q] {
+		if be, ok := q.(*ast.BinaryExpr); ok && be.Op == token.LAND && be.Y == child && nonEmpty(be.X) {
+			return true
+		}
+		if is, ok := q.(*ast.IfStmt); ok && is.Body == child && nonEmpty(is.Cond) {
+			return true
+		}
+	}
+	for _, st := range fd.Body.List {
+		if st.Pos() > e.Pos() {
+			break
+		}
+		if is, ok := st.(*ast.IfStmt); ok && is.Else == nil && len(is.Body.List) > 0 {
+			if _, isRet := is.Body.List[len(is.Body.List)-1].(*ast.ReturnStmt); isRet {
+				s := strings.ReplaceAll(exprString(is.Cond), " ", "")
+				n := obj.Name()
+				if strings.Contains(s, "len("+n+")==0") || strings.Contains(s, n+`==""`) || strings.Contains(s, "len("+n+")<1") {
+					return true
+				}
+			}
+		}
+	}
+	return false
+}
+
+// helperCallGuarded: every call in fd of the helper hfd that is handed param is the right
+// operand of `len(param) > 0 && …` (or otherwise length-guarded).
+func helperCallGuarded(info *types.Info, fd, hfd *ast.FuncDecl, param types.Object) bool {
+	calls, guarded := 0, 0
+	ast.Inspect(fd.Body, func(n ast.Node) bool {
+		call, ok := n.(*ast.CallExpr)
+		if !ok {
+			return true
+		}
+		f := calleeOf(info, call)
+		if f == nil || info.Defs[hfd.Name] != types.Object(f) {
+			return true
+		}
+		calls++
+		if lenGuarded(info, fd, call, param) {
+			guarded++
+		}
+		return true
+	})
+	return calls > 0 && calls == guarded
+}
+
+// ---------------------------------------------------------------------------
+// GEP-ALL
+
+func init() {
+	register(&Rule{
+		Name:  "GEP-ALL",
+		Doc:   "the shared gep type walk examines every index of a non-empty index list: in the function of internal/gep that ranges over its []Index parameter, no return ahead of that loop is taken when the list has one or more entries (its guard, evaluated for list lengths 1, 2 and 3, is false) — a shortcut for short lists skips the index whose vector length decides whether the result is a vector of pointers",
+		Floor: 1,
+		Run:   ruleGEPALL,
+	})
+}
+
+func ruleGEPALL(c *Ctx) []Obligation {
+	var obs []Obligation
+	c.eachFunc(pkgGEP, func(p *packages.Package, fd *ast.FuncDecl, fn *types.Func) {
+		info := p.TypesInfo
+		// the []Index parameter
+		var idx types.Object
+		for _, fl := range fd.Type.Params.List {
+			for _, nm := range fl.Names {
+				if sl, ok := info.TypeOf(fl.Type).Underlying().(*types.Slice); ok && isNamed(sl.Elem(), pkgGEP, "Index") {
+					idx = info.Defs[nm]
+				}
+			}
+		}
+		if idx == nil {
+			return
+		}
+		var loop *ast.RangeStmt
+		ast.Inspect(fd.Body, func(n ast.Node) bool {
+			if rs, ok := n.(*ast.RangeStmt); ok && loop == nil {
+				if id, ok := unparen(rs.X).(*ast.Ident); ok && info.ObjectOf(id) == idx {
+					loop = rs
+				}
+			}
+			return true
+		})
+		if loop == nil {
+			return
+		}
+		o := Obligation{Key: funcKey(fn) + " examines every index of a non-empty list", Pos: c.pos(loop.Pos()), Verdict: OK, Tags: []string{"gep"}, Detail: "no return ahead of the loop over the indices is taken for a list of length ≥ 1"}
+		pm := buildParents(fd.Body)
+		lenS := "len(" + idx.Name() + ")"
+		var eval func(e ast.Expr, n int64) (bool, bool)
+		eval = func(e ast.Expr, n int64) (val bool, ok bool) {
+			e = unparen(e)
+			be, isBin := e.(*ast.BinaryExpr)
+			if !isBin {
+				return false, false
+			}
+			switch be.Op {
+			case token.LAND, token.LOR:
+				a, ok1 := eval(be.X, n)
+				b, ok2 := eval(be.Y, n)
+				if !ok1 || !ok2 {
+					return false, false
+				}
+				if be.Op == token.LAND {
+					return a && b, true
+				}
+				return a || b, true
+			}
+			side := func(x ast.Expr) (constant.Value, bool) {
+				if strings.ReplaceAll(exprString(x), " ", "") == lenS {
+					return constant.MakeInt64(n), true
+				}
+				if tv := info.Types[x]; tv.Value != nil && tv.Value.Kind() == constant.Int {
+					return tv.Value, true
+				}
+				return nil, false
+			}
+			a, ok1 := side(be.X)
+			b, ok2 := side(be.Y)
+			if !ok1 || !ok2 {
+				return false, false
+			}
+			switch be.Op {
+			case token.EQL, token.NEQ, token.LSS, token.LEQ, token.GTR, token.GEQ:
+				return constant.Compare(a, be.Op, b), true
+			}
+			return false, false
+		}
+		ast.Inspect(fd.Body, func(n ast.Node) bool {
+			r, ok := n.(*ast.ReturnStmt)
+			if !ok || r.Pos() > loop.Pos() || o.Verdict != OK {
+				return true
+			}
+			// the innermost if whose body holds the return
+			for q := pm[r]; q != nil; q = pm[q] {
+				is, ok := q.(*ast.IfStmt)
+				if !ok || !(is.Body.Pos() <= r.Pos() && r.End() <= is.Body.End()) {
+					continue
+				}
+				if !strings.Contains(strings.ReplaceAll(exprString(is.Cond), " ", ""), lenS) {
+					break // a test of something else (the source type, an error): not a shortcut on the length
+				}
+				for _, k := range []int64{1, 2, 3} {
+					if v, ok := eval(is.Cond, k); ok && v {
+						o.Verdict, o.Pos = VIOL, c.pos(r.Pos())
+						o.Detail = fmt.Sprintf("`if %s` returns ahead of the loop over the indices for a list of %d index(es): that index is never examined, so a vector index (`getelementptr i32, i32* %%p, <4 x i64> %%i`) yields a scalar pointer type in the parser, the instruction and the constant expression alike", exprString(is.Cond), k)
+						break
+					}
+				}
+				break
+			}
+			return true
+		})
+		obs = append(obs, o)
+	})
+	return obs
+}
+
+// ---------------------------------------------------------------------------
+// ENC-KEY
+
+func init() {
+	register(&Rule{
+		Name:  "ENC-KEY",
+		Doc:   "package asm never uses the display name of an identifier as data: Name() of ir.LocalIdent / ir.GlobalIdent returns an all-digit name in quotes and re-formatted (`\"42\"`, and `\"7\"` for 007) so that it can be told from an ID, whereas definitions are looked up by the decoded name — a definition indexed, or an implicit comdat resolved, under Name() is not found by its uses (or collides with another name); outside error messages the raw name fields or the decoded identifier are used",
+		Floor: 1,
+		Run:   ruleENCKEY,
+	})
+}
+
+func ruleENCKEY(c *Ctx) []Obligation {
+	var obs []Obligation
+	nfn := 0
+	c.eachFunc(pkgASM, func(p *packages.Package, fd *ast.FuncDecl, fn *types.Func) {
+		nfn++
+		info := p.TypesInfo
+		pm := buildParents(fd.Body)
+		n := 0
+		ast.Inspect(fd.Body, func(nd ast.Node) bool {
+			call, ok := nd.(*ast.CallExpr)
+			if !ok || len(call.Args) != 0 {
+				return true
+			}
+			se, ok := unparen(call.Fun).(*ast.SelectorExpr)
+			if !ok || se.Sel.Name != "Name" {
+				return true
+			}
+			m, ok := info.Uses[se.Sel].(*types.Func)
+			if !ok {
+				return true
+			}
+			r := m.Type().(*types.Signature).Recv()
+			if r == nil {
+				return true
+			}
+			isIdent := isNamed(r.Type(), pkgIR, "LocalIdent") || isNamed(r.Type(), pkgIR, "GlobalIdent")
+			// … or through an interface of the IR packages (value.Named, the parser's `local`)
+			if rn := namedOf(r.Type()); !isIdent && rn != nil && types.IsInterface(rn) && (isIRPkg(rn.Obj().Pkg().Path()) || rn.Obj().Pkg().Path() == pkgASM) {
+				isIdent = true
+			}
+			if !isIdent && types.IsInterface(info.TypeOf(se.X)) {
+				if xn := namedOf(info.TypeOf(se.X)); xn != nil && (isIRPkg(xn.Obj().Pkg().Path()) || xn.Obj().Pkg().Path() == pkgASM) {
+					isIdent = true
+				}
+			}
+			if !isIdent {
+				return true
+			}
+			// inside a diagnostic?
+			for q := pm[call]; q != nil; q = pm[q] {
+				if pc, ok := q.(*ast.CallExpr); ok {
+					if id, ok := pc.Fun.(*ast.Ident); ok && id.Name == "panic" {
+						return true
+					}
+					if f := calleeOf(info, pc); f != nil {
+						if f.Pkg() != nil && (f.Pkg().Path() == "fmt" || strings.HasSuffix(f.Pkg().Path(), "/errors")) {
+							return true
+						}
+						if rs := f.Type().(*types.Signature).Results(); rs.Len() == 1 && isErrorType(rs.At(0).Type()) {
+							return true
+						}
+					}
+				}
+			}
+			n++
+			obs = append(obs, Obligation{Key: fmt.Sprintf("%s uses the display name of an identifier as data #%d", funcKey(fn), n), Pos: c.pos(call.Pos()), Verdict: VIOL,
+				Detail: fmt.Sprintf("%s is the display form of the name — an all-digit name comes back in quotes and re-formatted (`\"42\"`; `\"7\"` for 007) — and is used here as a key or a lookup name: uses are decoded to the raw name, so `%%\"42\" = add …` followed by a use of %%\"42\" is rejected as undefined, %%\"007\" and %%\"7\" collide, and a bare `comdat` on @\"42\" is not resolved", exprString(call))})
+			return true
+		})
+	})
+	obs = append(obs, Obligation{Key: "package asm: display names of identifiers are used in diagnostics only", Verdict: OK, Detail: fmt.Sprintf("%d functions examined", nfn)})
+	return obs
+}
+
+// ---------------------------------------------------------------------------
+// DECL-EXT
+
+func init() {
+	register(&Rule{
+		Name:  "DECL-EXT",
+		Doc:   "the printer of a global variable writes an external linkage keyword for the declaration form: in (*ir.Global).LLString, when no linkage is set (the constructors leave LinkageNone) and the global has no initialiser, a branch guarded by `Init == nil` writes enum.LinkageExternal — LLVM's grammar has no global declaration without `external` / `extern_weak`, so `@g = global i32` does not parse",
+		Floor: 1,
+		Run:   ruleDECLEXT,
+	})
+}
+
+func ruleDECLEXT(c *Ctx) []Obligation {
+	fn := c.lookupFunc(pkgIR, "Global.LLString")
+	fd := c.funcDecl(fn)
+	if fd == nil || fd.Body == nil {
+		return []Obligation{{Key: "ir.(*Global).LLString", Verdict: UNDECIDED, Detail: "printer not found"}}
+	}
+	pfd, _ := c.printerDecl(fn)
+	if pfd != nil {
+		fd = pfd
+	}
+	info := c.declPkg[fd].TypesInfo
+	o := Obligation{Key: "ir.(*Global).LLString writes an external linkage for a declaration without linkage", Pos: c.pos(fd.Pos()), Verdict: VIOL,
+		Detail: "no branch guarded by `Init == nil` writes the external linkage keyword: a declaration built through the API (ir.NewGlobal, Module.NewGlobal leave Linkage at its zero value) prints as `@g = global i32`, which neither LLVM nor this library's parser accepts"}
+	var scan func(body ast.Node, depth int)
+	seen := map[*ast.FuncDecl]bool{fd: true}
+	scan = func(body ast.Node, depth int) {
+		ast.Inspect(body, func(n ast.Node) bool {
+			switch x := n.(type) {
+			case *ast.IfStmt:
+				cond := strings.ReplaceAll(exprString(x.Cond), " ", "")
+				if strings.Contains(cond, "Init==nil") {
+					writes := false
+					ast.Inspect(x.Body, func(m ast.Node) bool {
+						if se, ok := m.(*ast.SelectorExpr); ok && se.Sel.Name == "LinkageExternal" {
+							writes = true
+						}
+						if lit, ok := m.(*ast.BasicLit); ok && strings.Contains(lit.Value, "external") {
+							writes = true
+						}
+						return true
+					})
+					if writes {
+						o.Verdict, o.Pos = OK, c.pos(x.Pos())
+						o.Detail = "`" + exprString(x.Cond) + "` → writes the external linkage keyword"
+					}
+				}
+			case *ast.CallExpr:
+				if f := calleeOf(info, x); f != nil && f.Pkg() != nil && f.Pkg().Path() == pkgIR && depth < 2 {
+					if hfd := c.funcDecl(f); hfd != nil && hfd.Body != nil && !seen[hfd] {
+						seen[hfd] = true
+						scan(hfd.Body, depth+1)
+					}
+				}
+			}
+			return true
+		})
+	}
+	scan(fd.Body, 0)
+	return []Obligation{o}
 }
